@@ -219,7 +219,10 @@ ImplAngle(base, h) ==
     LET o == ImplFp16(h) IN
     IF o.c = "nan" THEN Num("nan", 0, <<>>, 0)
     ELSE IF o.c = "inf" THEN Num("inf", 1 - o.s, <<>>, 0)
-    ELSE NumD(RoundD53(DSub(P!ToD(base), P!ToD(o))))
+    ELSE LET df == DSub(P!ToD(base), P!ToD(o)) IN
+         \* IEEE: (-0) - (+0) = -0, every other zero difference is +0
+         IF df.n = <<>> THEN NumZero(IF base.m = <<>> /\ o.m = <<>> /\ base.s = 1 /\ o.s = 0 THEN 1 ELSE 0)
+         ELSE NumD(RoundD53(df))
 ImplRange(data) ==
     LET n == Len(data) \div 5 IN
     [called |-> TRUE, ids |-> [j \in 1..n |-> data[5 * j - 4]],
